@@ -205,8 +205,7 @@ def run(ctx):
 
     n_dec = 0
     for err in ("zlib.error", "builtins.OSError"):
-        rows_d = effect_rows(ctx, df, DecRule(ctx, RS, raising={"decompress": err}, pure_self=("_flush_decoder",)), f"{RS}.BaseHTTPResponse",
-                             seeds={("self", "_decoder"): AV("obj", "decoder", truth=True, none=False)})
+        rows_d = effect_rows(ctx, df, DecRule(ctx, RS, raising={"decompress": err}, pure_self=("_flush_decoder",)), f"{RS}.BaseHTTPResponse")
         faulted = [r for r in rows_d if r.st.ts.get("fault")]
         n_dec += len(faulted)
         for r in faulted[:3]:
